@@ -92,17 +92,33 @@ func (o *outbound) isSessionRegisteredAtom(cd core.Cond, p *core.Path) (register
 	return false, false
 }
 
+// checkC03Table runs only the decision table (R1) and provenance (R2) of the outbound in-flight callbacks under the given rule id prefix.
+func checkC03Table(c *Ctx, id string) {
+	saveRules := tableOnly
+	tableOnly = id
+	defer func() { tableOnly = saveRules }()
+	checkC03(c)
+}
+
+var tableOnly string
+
 func checkC03(c *Ctx) {
-	c.R.Explanation = "Static rules over wasp/writer.go and wasp/packets.go: (R1) decision table of every outbound in-flight callback over the atoms E (fired as expired) and R (session still registered): E∧R ⇒ exactly one re-arm and no release; ¬R ⇒ exactly one release of the identifier, no re-arm, no write; ¬E∧R ⇒ release (QoS 1 / PUBREL done) or advance to PUBREL (QoS 2) — unevaluated atoms fork both ways; (R2) the re-armed packet is the very packet registered (same identifier), the PUBREL takes its identifier from the stored PUBLISH, the released identifier is the stored packet's, the registry is asked about the session being written to; (R3) if arming fails the fresh identifier is released and nothing is written; (R4) the expiry sweep is wired to a ticker loop in a goroutine of Writer.Run; (R5) all four acknowledgement packet types are routed to the in-flight table."
-	c.R.NotCovered = "Actual timing of deadlines and sweeps, what the client does, retransmission DUP flag semantics."
-	c.R.Assume("ack.Queue invokes each callback at most once with expired reflecting the cause (C04)")
-	ru1 := c.R.Rule("C03-R1", "decision table of each outbound in-flight callback over E (expired) and R (session registered): E∧R ⇒ one re-arm, no release; ¬R ⇒ one release, no re-arm, no write; ¬E∧R ⇒ one release, or one advance to PUBREL", "E1 pathspec with uninterpreted atoms, rows checked on every consistent path", 3)
+	r1, r2 := "C03-R1", "C03-R2"
+	if tableOnly != "" {
+		r1, r2 = tableOnly, tableOnly+"b"
+	}
+	if tableOnly == "" {
+		c.R.NotCovered = "Actual timing of deadlines and sweeps, what the client does, retransmission DUP flag semantics."
+		c.R.Assume("ack.Queue invokes each callback at most once with expired reflecting the cause (C04)")
+		c.R.Explanation = "Static rules over wasp/writer.go and wasp/packets.go: (R1) decision table of every outbound in-flight callback over the atoms E (fired as expired) and R (session still registered): E∧R ⇒ exactly one re-arm and no release; ¬R ⇒ exactly one release of the identifier, no re-arm, no write; ¬E∧R ⇒ release (QoS 1 / PUBREL done) or advance to PUBREL (QoS 2) — unevaluated atoms fork both ways; (R2) the re-armed packet is the very packet registered (same identifier), the PUBREL takes its identifier from the stored PUBLISH, the released identifier is the stored packet's, the registry is asked about the session being written to; (R3) if arming fails the fresh identifier is released and nothing is written; (R4) the expiry sweep is wired to a ticker loop in a goroutine of Writer.Run; (R5) all four acknowledgement packet types are routed to the in-flight table."
+	}
+	ru1 := c.R.Rule(r1, "decision table of each outbound in-flight callback over E (expired) and R (session registered): E∧R ⇒ one re-arm, no release; ¬R ⇒ one release, no re-arm, no write; ¬E∧R ⇒ one release, or one advance to PUBREL", "E1 pathspec with uninterpreted atoms, rows checked on every consistent path", 3)
 	o := c.outbound(ru1)
 	if o == nil {
 		return
 	}
 	ru1.Anchor(len(o.sites) >= 3, "outbound Insert sites (QoS 1 PUBLISH, QoS 2 PUBLISH, PUBREL)")
-	ru2 := c.R.Rule("C03-R2", "same identifier: the packet re-armed on expiry is the very value registered; a PUBREL built on PUBREC takes its MessageId from the stored/captured PUBLISH; the identifier released comes from the stored/captured packet; the registry lookup asks about the session being served", "E3 provenance", 6)
+	ru2 := c.R.Rule(r2, "same identifier: the packet re-armed on expiry is the very value registered; a PUBREL built on PUBREC takes its MessageId from the stored/captured PUBLISH; the identifier released comes from the stored/captured packet; the registry lookup asks about the session being served", "E3 provenance", 6)
 	completesQoS1, advancesQoS2 := false, false
 	for si, s := range o.sites {
 		base := fmt.Sprintf("in-flight callback of Insert(*packet.%s) in %s", s.pktType, c.fname(s.fn))
@@ -247,6 +263,9 @@ func checkC03(c *Ctx) {
 	}
 	ru1.Check(completesQoS1 && advancesQoS2, "both acknowledged outcomes occur over the PUBLISH sites", "-", "QoS 1 completes on PUBACK, QoS 2 advances to PUBREL on PUBREC", fmt.Sprintf("over all PUBLISH registrations: completes=%v advances=%v (one of the two QoS flows is missing)", completesQoS1, advancesQoS2))
 
+	if tableOnly != "" {
+		return
+	}
 	// R3
 	ru3 := c.R.Rule("C03-R3", "in an arming function that reports failure, the packet is written only after the registration succeeded; in the fan-out, a failed arming releases the identifier just acquired", "E1 nil-branch guard + path rows", 4)
 	for _, s := range o.sites {
